@@ -21,6 +21,22 @@ func accessPath(v ssa.Value, roots map[ssa.Value]string, depth int) (root, path 
 	switch x := v.(type) {
 	case *ssa.Const:
 		return "", x.String(), true
+	case *ssa.Alloc:
+		// spilled parameter: a local whose only store is the parameter itself
+		var src ssa.Value
+		n := 0
+		for _, ref := range *x.Referrers() {
+			if st, ok := ref.(*ssa.Store); ok && st.Addr == ssa.Value(x) {
+				n++
+				src = st.Val
+			}
+		}
+		if n == 1 {
+			if name, isRoot := roots[src]; isRoot {
+				return name, "", true
+			}
+		}
+		return "", "", false
 	case *ssa.UnOp:
 		if x.Op == token.MUL {
 			return accessPath(x.X, roots, depth+1)
